@@ -442,6 +442,7 @@ def render_observations(col, L, prog, history, case, quick=False):
     m = T.model
     if prog["group"] in ("rm", "mixed"):
         iterator_observations(col, L, prog, T, history, case)
+        override_equals_effective(col, L, prog, T, history, case)
     nodes = m.classes + m.instances
     if quick:                              # quick tier: a fresh instance of the most derived class only
         nodes = m.classes[-1:] + m.instances
@@ -478,6 +479,70 @@ def render_observations(col, L, prog, history, case, quick=False):
                                   f"iterm2/{prog['shape']}: after {history}: WHOLE render of {n} carries {got[1]} "
                                   f"data, effective read_from_file={rff} jpeg_quality={jq} dictate {want_payload}",
                                   case)
+
+
+_PATTERNS = {}
+
+
+def pattern_pil(w, h):
+    im = _PATTERNS.get((w, h))
+    if im is None:
+        im = _PATTERNS[(w, h)] = imgkit.pattern(w, h, "RGB", alpha="opaque")
+    return im
+
+
+def override_equals_effective(col, L, prog, T, history, case):
+    """Differential: a render with a per-call override M2 on an instance whose effective method is M1 is the SAME
+    STRING as the render, without override, of a fresh instance of the same class (same source, size, alpha, other
+    settings) whose effective method is M2 - layout and pixel geometry alike.  Sources both smaller (upscaled
+    render) and larger than the render size."""
+    root = prog["root"]
+    m = T.model
+    c = m.classes[-1]
+    i = m.instances[-1]
+    cls = T.nodes[c]
+    icls = T.nodes[m.parent[i]]
+    pairs = []       # (label, instance under test, reference factory)
+    for label, src, size in (("upscaled 2x3 px source at 2x3 cells", pattern_pil(2, 3), (2, 3)),
+                             ("6x12 px source at 1x2 cells", pattern_pil(6, 12), (1, 2)),
+                             ("2x4 px source at 2x4 cells", None, (2, 4))):
+        def fresh(klass=cls, src=src, size=size, name=c):
+            o = klass(src, width=size[0], height=size[1]) if src is not None else new_instance(T, name)
+            o.set_size(*size)
+            return o
+        pairs.append((f"fresh {c} instance, {label}", c, fresh(), fresh))
+    inst = T.nodes[i]
+
+    def iref():
+        o = new_instance(T, m.parent[i])
+        o.set_size(2, 4)
+        for s_, attr in (("jq", "jpeg_quality"), ("rff", "read_from_file")):
+            if root == "iterm2" and i in m.ov[s_]:
+                setattr(o, attr, m.ov[s_][i])
+        return o
+    inst.set_size(2, 4)
+    pairs.append((f"{i}, 2x4 px source at 2x4 cells", i, inst, iref))
+    try:
+        for label, n, obj, make_ref in pairs:
+            eff = m.eff("rm", n)
+            for m2, plus in (("lines", "+L"), ("whole", "+W")):
+                if m2 == eff:
+                    continue
+                ref = make_ref()
+                ref.set_render_method(m2)
+                a = format(obj, "1.1" + plus)
+                b = format(ref, "1.1")
+                col.count(2)
+                col.inc("renders", 2)
+                col.inc("override_differentials")
+                if a != b:
+                    col.violation(dict(clause="override-equals-effective", root=root, override=m2,
+                                       node=node_kind(n)),
+                                  f"{root}/{prog['shape']}: after {history}: {label}: the render with per-call "
+                                  f"override {plus} (effective method {eff!r}) differs from the render of a fresh "
+                                  f"instance whose effective method is {m2!r}: {a[:90]!r}... vs {b[:90]!r}...", case)
+    finally:
+        inst.set_size(1, 2)
 
 
 def iterator_observations(col, L, prog, T, history, case):
